@@ -154,6 +154,21 @@ def sanitises(fi, var: str) -> str | None:
             if isinstance(v, ast.Call) and call_name(v) == "lstrip" and v.args and isinstance(v.args[0], ast.Constant) and v.args[0].value == "/":
                 if any(isinstance(t, ast.Name) and t.id in aliases for t in n.targets):
                     strips.append(n)
+            # the same strip under the mode switch, written as a conditional expression:
+            #   name = x if reference else x.lstrip('/')
+            if isinstance(v, ast.IfExp):
+                t_ = v.test
+                neg = isinstance(t_, ast.UnaryOp) and isinstance(t_.op, ast.Not)
+                tn = t_.operand if neg else t_
+                arm, other = (v.body, v.orelse) if neg else (v.orelse, v.body)
+                if (
+                    isinstance(tn, ast.Name) and tn.id in params
+                    and isinstance(arm, ast.Call) and call_name(arm) == "lstrip" and arm.args and isinstance(arm.args[0], ast.Constant) and arm.args[0].value == "/"
+                    and isinstance(call_recv(arm), ast.Name) and call_recv(arm).id in aliases
+                    and isinstance(other, ast.Name) and other.id in aliases
+                    and any(isinstance(t, ast.Name) and t.id in aliases for t in n.targets)
+                ):
+                    strips.append(n)
         if isinstance(n, ast.While) and "startswith('/')" in norm(n.test) and names_in(n.test) & aliases:
             absolute = True
     # the leading-'/' strip must run before the '..' guard on every path (else '/../x' passes the guard and is stripped after)
